@@ -80,7 +80,8 @@ func mutateTranscript(r Rng, in []byte) []byte {
 		return append(b[:p], b[p+1:]...)
 	case 2:
 		p := r.Intn(len(b) + 1)
-		ins := [][]byte{{0}, {'\r'}, {'*'}, {'F'}, {';'}, {0xff}, {1}, {2, 0}, {4}, []byte("F>\r"), []byte(";PQ\r"), []byte("\x00\r"), []byte("FS A5000\r"), []byte("FC EM\r"), []byte(";PM: a b 1 c d\r"), []byte("*** err\r")}[r.Intn(16)]
+		ins := [][]byte{{0}, {'\r'}, {'*'}, {'F'}, {';'}, {0xff}, {1}, {2, 0}, {4}, []byte("F>\r"), []byte(";PQ\r"), []byte("\x00\r"), []byte("FS A5000\r"), []byte("FC EM\r"), []byte(";PM: a b 1 c d\r"), []byte("*** err\r"),
+			[]byte("***\r"), []byte("*\r"), []byte("*** gave up *\r"), []byte("***   \r"), []byte(";FW:\r"), []byte(";FW: \r"), []byte(";PQ: 1234567>\r"), []byte("[a\n-b]\r")}[r.Intn(24)]
 		return append(b[:p], append(append([]byte(nil), ins...), b[p:]...)...)
 	case 3:
 		b[r.Intn(len(b))] = byte(r.Intn(256))
@@ -96,7 +97,8 @@ func mutateTranscript(r Rng, in []byte) []byte {
 	case 5: // replace one line
 		lines := bytes.Split(b, []byte("\r"))
 		k := r.Intn(len(lines))
-		lines[k] = [][]byte{[]byte("F>"), []byte(";PQ"), []byte("F"), []byte(""), []byte("\x00"), []byte("\x00\x00"), []byte("FS"), []byte("FS +++++++"), []byte("FS A"), []byte("FS !12x"), []byte("FC"), []byte("FC EM"), []byte("FC EM A 1 2 3 4"), []byte("FA x"), []byte("[x]"), []byte("[-]"), []byte(";FW"), []byte(";FW: a|b c"), []byte("FX"), []byte("F> ZZ")}[r.Intn(20)]
+		lines[k] = [][]byte{[]byte("F>"), []byte(";PQ"), []byte("F"), []byte(""), []byte("\x00"), []byte("\x00\x00"), []byte("FS"), []byte("FS +++++++"), []byte("FS A"), []byte("FS !12x"), []byte("FC"), []byte("FC EM"), []byte("FC EM A 1 2 3 4"), []byte("FA x"), []byte("[x]"), []byte("[-]"), []byte(";FW"), []byte(";FW: a|b c"), []byte("FX"), []byte("F> ZZ"),
+			[]byte("***"), []byte("*"), []byte("*** x *"), []byte(";FW:"), []byte("*** "), []byte("FF *")}[r.Intn(26)]
 		return bytes.Join(lines, []byte("\r"))
 	case 6: // duplicate a segment
 		p := r.Intn(len(b))
@@ -139,6 +141,29 @@ func runC03(ctx *Ctx) error {
 			in = mutateTranscript(r, in)
 		}
 		tcs = append(tcs, tc{b.c, in, "mutated"})
+	}
+	// (a') structural replacements at the protocol's landmarks: where a transfer (SOH), a proposal
+	// block, an answer line or the prompt is expected, the remote sends an error marker or a bare
+	// keyword instead (with and without the rest of the transcript after it)
+	markers := []string{"***\r", "*\r", "*** remote gave up *\r", "***   \r", "*** some text\r", "**\r", "\r", "F\r", "FS\r", ";\r", "FF\r", "FQ\r", "F> \r", "[\r", "]\r", ">\r"}
+	for _, b := range base {
+		var marks []int
+		for k := 0; k+1 < len(b.in); k++ {
+			if b.in[k] == '\r' { // every line start
+				marks = append(marks, k+1)
+			}
+		}
+		for k := 0; k < len(marks) && k < 40; k++ {
+			at := marks[k]
+			mk := markers[r.Intn(len(markers))]
+			in := append(append([]byte(nil), b.in[:at]...), mk...)
+			if r.Intn(2) == 0 {
+				in = append(in, b.in[at:]...)
+			}
+			if b.in[at] == 0x01 || r.Intn(6) == 0 { // always where a transfer starts, elsewhere one in six
+				tcs = append(tcs, tc{b.c, in, "landmark"})
+			}
+		}
 	}
 	// (b) damaged payloads through a scripted master
 	slave := sideCfg{Master: false, Mycall: "LA1B", Target: "LA5NTA", Locator: "JO59jw", Handler: true, Policy: map[string]fbb.ProposalAnswer{}, Fail: map[string]bool{}}
